@@ -25,6 +25,8 @@ class Module:
         with open(self.path) as fd:
             self.text = fd.read()
         self.tree = ast.parse(self.text, filename=self.path)
+        from . import alpha
+        self.aligned = alpha.align_module(self.tree, relpath)
         self.functions = {}   # qualname -> FunctionDef
         self.classes = {}
         self.parents = {}
